@@ -18,7 +18,7 @@ fuzz_target!(|data: &[u8]| {
     while !u.is_empty() && ops.len() < 80 {
         match u.int_in_range(0u8..=9).unwrap_or(0) {
             0..=5 => {
-                let len = u.int_in_range(0usize..=4).unwrap_or(1);
+                let len = u.int_in_range(0usize..=9).unwrap_or(1);
                 ops.push(SatOp::Add((0..len).map(|_| lit(&mut u, 12)).collect()));
             }
             6 => ops.push(SatOp::Reserve(u.int_in_range(0u8..=16).unwrap_or(0))),
